@@ -31,6 +31,8 @@ type scriptConn struct {
 	waiting bool
 	out     []byte
 	remote  net.Addr
+	Wait    time.Duration // how long Feed waits for the server to become idle or to close (default 60 s)
+	Stuck   bool          // Feed gave up: the server neither answered to the end nor closed
 }
 
 func newScriptConn(remote net.Addr) *scriptConn {
@@ -93,13 +95,18 @@ func (c *scriptConn) Feed(b []byte) (out []byte, closed bool) {
 		c.waiting = false
 		c.cond.Broadcast()
 	}
-	deadline := time.Now().Add(60 * time.Second)
+	wait := c.Wait
+	if wait == 0 {
+		wait = 60 * time.Second
+	}
+	deadline := time.Now().Add(wait)
 	for !(c.closed || (c.waiting && len(c.in) == 0)) {
 		// cond.Wait has no timeout; poll with a helper goroutine-free approach
 		c.mu.Unlock()
 		time.Sleep(20 * time.Microsecond)
 		c.mu.Lock()
 		if time.Now().After(deadline) {
+			c.Stuck = true
 			break
 		}
 	}
